@@ -197,7 +197,9 @@ func c12SchedScenario(c *fw.Ctx, sp c12Spec) schedScenario {
 						}},
 						{Name: "join", F: func() { rs.Join() }},
 					}
-					final = func() { outcome = fmt.Sprintf("scans-begun=%d e1-present=%v", len(vl.callbacks), present("e1", "boxa")) }
+					final = func() {
+						outcome = fmt.Sprintf("scans-begun=%d e1-present=%v", len(vl.callbacks), present("e1", "boxa"))
+					}
 					return init, ths, func() { safely(final); cancel(); sh.Close() }
 				}
 			})
@@ -233,8 +235,9 @@ func safely(f func()) {
 }
 
 func c12SchedRun(c *fw.Ctx) {
-	for _, sp := range c12Specs() {
-		exploreSched(c, c12SchedScenario(c, sp))
+	specs := c12Specs()
+	for i, sp := range specs {
+		c.Share(len(specs)-i, func() { exploreSched(c, c12SchedScenario(c, sp)) })
 	}
 }
 
